@@ -123,4 +123,35 @@ Values(env, T0, d) ==
              sizes == SizeSamples(T.size, 4)
          IN IF ev = <<>> THEN (IF 0 \in sizes THEN {<<>>} ELSE {})
             ELSE UNION {{Cyc(ev, n, 0), Cyc(Rev(ev), n, 0), Cyc(ev, n, 1), Cyc(<<ev[Len(ev)]>>, n, 0)} : n \in sizes}
+
+\* ---- values that violate exactly one constraint at one position (C07, C08) -----
+\* Only what a C structure can hold; sizes are kept small.
+FarInts == {I(-1), I(-129), I(256), I(65536), IDec(Int32Min), IPow2(31), IPow2(32), IDec(IPow2(63)), INeg(IPow2(63))}
+\* (extensible constraints are outside C08: no corruption is derived from them)
+BadInts(c) == IF Eff(c).ext THEN {}
+              ELSE {x \in NearBounds(Eff(c)) \cup FarInts : ~Sat(c, x, BMin, BMax) /\ Representable(c, x)}
+BadSizes(c, cap) == IF EffSize(c).ext THEN {}
+                    ELSE {IToInt(x) : x \in {y \in NearBounds(EffSize(c)) : ~y.neg /\ ILe(y, I(cap)) /\ ~Sat(c, y, BI(0), BMax)}}
+OutsideChar(T) == CHOOSE ch \in {126, 127, 33, 64, 122, 48, 32, 255} : ~InAlphabet(T, ch) /\ (T.st \in {"BMP", "Universal", "UTF8"} \/ ch < 256)
+HasOutsideChar(T) == \E ch \in {126, 127, 33, 64, 122, 48, 32, 255} : ~InAlphabet(T, ch) /\ (T.st \in {"BMP", "Universal", "UTF8"} \/ ch < 256)
+
+RECURSIVE Corruptions(_, _, _)
+Corruptions(env, T0, v) ==
+  LET T == Resolve(env, T0) IN
+  CASE T.k = "INTEGER" -> BadInts(T.c)
+    [] T.k = "BITS" -> {[n |-> n, o |-> PackRight(BitPattern(n, "ones"))] : n \in BadSizes(T.size, 40)}
+    [] T.k = "OCTETS" -> {Cyc(<<171>>, n, 0) : n \in BadSizes(T.size, 40)}
+    [] T.k = "STRING" ->
+         IF T.st \in {"UTCTime", "GeneralizedTime"} THEN {}
+         ELSE {Cyc(CharSamples(T), n, 0) : n \in BadSizes(T.size, 40)}
+              \cup (IF v # <<>> /\ HasOutsideChar(T)
+                    THEN {[v EXCEPT ![i] = OutsideChar(T)] : i \in {1, Len(v)}} ELSE {})
+    [] T.k \in {"SEQUENCE", "SET"} ->
+         LET cs == AllComps(T)
+         IN UNION {{[v EXCEPT ![i] = Pres(x)] : x \in Take(Corruptions(env, cs[i].t, v[i][1]), 4)} : i \in {j \in DOMAIN cs : IsPres(v[j])}}
+    [] T.k = "CHOICE" -> {MkAlt(AltOf(v), x) : x \in Take(Corruptions(env, CompByName(T, AltOf(v)).t, AltVal(v)), 4)}
+    [] T.k \in {"SEQOF", "SETOF"} ->
+         (IF v = <<>> THEN {} ELSE {Cyc(v, n, 0) : n \in BadSizes(T.size, 12)})
+         \cup UNION {{[v EXCEPT ![i] = x] : x \in Take(Corruptions(env, T.t, v[i]), 3)} : i \in DOMAIN v}
+    [] OTHER -> {}
 =============================================================================
